@@ -92,7 +92,7 @@ class Observer:
             sys.stdout.write("DIED before step %d %s %s\n" % (idx, kind, detail))
             sys.stdout.flush()
             os._exit(77)
-        if self.mode == "gate":
+        if self.mode == "gate" and self.gated(kind, detail):
             self.active = False
             try:
                 self.gate_out.write("STEP %d %s %s\n" % (idx, kind, detail))
@@ -102,6 +102,21 @@ class Observer:
                     os._exit(78)
             finally:
                 self.active = True
+
+    def gated(self, kind, detail):
+        """Coarsening of the scheduling points (keeps the interleaving space enumerable): the
+        existence test and the (re)load of the cache file, removals, creation/truncation, the
+        point right after the cookie line has been written, the close and the rename."""
+        if kind == "stat":
+            return detail.endswith(".py")
+        if kind == "open-r":
+            return detail.endswith(".py")
+        if kind == "write":
+            self.nwrites = getattr(self, "nwrites", 0) + 1
+            return self.nwrites % 4 == 3      # third write of a file: cookie line is on disk, code is not
+        if kind == "mkdir":
+            return False
+        return True
 
     def install(self):
         obs = self
